@@ -355,6 +355,614 @@ Proof.
   rewrite sum_scale_l. apply Qc_mul_nonneg; [assumption|]. exact (H0 (fun i => nth i dl 0 * x i)).
 Qed.
 
+(* ================================================================ Part E : no division by zero *)
+Lemma bind_err {A B} (e : res A) (f : A -> res B) x :
+  bind e f = Err x -> e = Err x \/ exists a, e = Ok a /\ f a = Err x.
+Proof. destruct e as [a|e0]; cbn; [right; eauto | intros [= ->]; left; reflexivity]. Qed.
+
+(* errors of pure index manipulation *)
+Definition idx_err (e : err) : Prop := e = Index \/ e = Shape.
+Lemma idx_err_not_dz e : idx_err e -> e <> DivZero.
+Proof. intros [-> | ->]; discriminate. Qed.
+
+Lemma get_err_kind {A} (v : list A) i e : get v i = Err e -> idx_err e.
+Proof. unfold get. destruct (nth_error v i); [discriminate|]. intros [= <-]. left. reflexivity. Qed.
+
+Lemma upd_err_kind {A} (v : list A) i x e : upd v i x = Err e -> idx_err e.
+Proof.
+  revert i. induction v as [|a v IH]; intros i H; [cbn in H; destruct i; injection H as <-; left; reflexivity|].
+  destruct i; [discriminate|]. cbn [upd] in H. apply bind_err in H as [H | (r & _ & H)]; [eauto | discriminate].
+Qed.
+
+Lemma gather_err_kind {A} (v : list A) idx e : gather v idx = Err e -> idx_err e.
+Proof.
+  intros H. apply mapM_no_err_shape in H as (a & _ & H). eapply get_err_kind; eauto.
+Qed.
+
+Lemma scatter_with_err_kind {A B} (f : A -> B -> A) idx : forall (v : list A) (w : list B) e,
+  scatter_with f v idx w = Err e -> idx_err e.
+Proof.
+  induction idx as [|j idx IH]; intros v w e H; [cbn in H; discriminate|].
+  destruct w as [|x w]; [cbn in H; injection H as <-; right; reflexivity|]. cbn [scatter_with] in H.
+  apply bind_err in H as [H | (a & _ & H)]; [eapply get_err_kind; eauto|].
+  apply bind_err in H as [H | (v' & _ & H)]; [eapply upd_err_kind; eauto|]. eauto.
+Qed.
+
+Lemma swap_err_kind {A} (v : list A) i j e : swap v i j = Err e -> idx_err e.
+Proof.
+  unfold swap. intros H.
+  apply bind_err in H as [H | (a & _ & H)]; [eapply get_err_kind; eauto|].
+  apply bind_err in H as [H | (b & _ & H)]; [eapply get_err_kind; eauto|].
+  apply bind_err in H as [H | (v1 & _ & H)]; [eapply upd_err_kind; eauto|]. eapply upd_err_kind; eauto.
+Qed.
+
+Lemma swap_loop_err_kind {A} ridx : forall (v : list A) i e, swap_loop v i ridx = Err e -> idx_err e.
+Proof.
+  induction ridx as [|j t IH]; intros v i e H; [destruct i; cbn in H; discriminate|].
+  destruct i; [cbn in H; injection H as <-; right; reflexivity|]. cbn [swap_loop] in H.
+  apply bind_err in H as [H | (v' & _ & H)]; [eapply swap_err_kind; eauto | eauto].
+Qed.
+
+Lemma restore_one_err_kind {A} (dflt : A) n v idx e : restore_one dflt n v idx = Err e -> idx_err e.
+Proof.
+  unfold restore_one. destruct (_ && _)%bool; [apply swap_loop_err_kind | intros [= <-]; right; reflexivity].
+Qed.
+
+Lemma unscale_and_restore_err_kind junk sv it e : unscale_and_restore junk sv it = Err e -> idx_err e.
+Proof.
+  unfold unscale_and_restore. cbv zeta. intros H.
+  repeat (apply bind_err in H as [H | (? & _ & H)]; [eapply restore_one_err_kind; eauto|]). discriminate.
+Qed.
+
+Lemma update_nr_residuals_err_kind d pc K it inf e : update_nr_residuals d pc K it inf = Err e -> idx_err e.
+Proof.
+  unfold update_nr_residuals. cbv zeta. intros H.
+  apply bind_err in H as [H | (? & _ & H)]; [eapply scatter_with_err_kind; eauto|].
+  apply bind_err in H as [H | (? & _ & H)]; [eapply scatter_with_err_kind; eauto|].
+  apply bind_err in H as [H | (? & _ & H)]; [eapply gather_err_kind; eauto|].
+  apply bind_err in H as [H | (? & _ & H)]; [eapply gather_err_kind; eauto|]. discriminate.
+Qed.
+
+Lemma vinv_err_zero v e : vinv v = Err e -> exists x, In x v /\ x = 0.
+Proof.
+  intros H. apply mapM_no_err_shape in H as (a & Ha & H). exists a. split; [assumption|].
+  unfold qinv in H. eapply qdiv_err; eauto.
+Qed.
+
+Lemma In_combine3 (a b c : Vec) t : In t (combine (combine a b) c) ->
+  exists k, (k < length a)%nat /\ (k < length b)%nat /\ (k < length c)%nat /\ t = ((nth k a 0, nth k b 0), nth k c 0).
+Proof.
+  intros H. apply (In_nth _ _ ((0, 0), 0)) in H as (k & Hk & <-).
+  rewrite !combine_length in Hk. exists k. repeat split; try nlia.
+  rewrite nth_combine by (rewrite ?combine_length; nlia). rewrite nth_combine by nlia. reflexivity.
+Qed.
+
+Lemma box_diag_err_kind delta diag idx sc zinv s n e :
+  length sc = n -> (forall k, (k < n)%nat -> nth k zinv 0 * nth k s 0 + delta <> 0) ->
+  box_diag delta diag idx sc zinv s = Err e -> idx_err e.
+Proof.
+  intros Lsc Hnz H. unfold box_diag in H.
+  apply bind_err in H as [H | (terms & _ & H)]; [|eapply scatter_with_err_kind; eauto].
+  exfalso. apply mapM_no_err_shape in H as (t & Ht & H).
+  apply In_combine3 in Ht as (k & K1 & K2 & K3 & ->). cbn [fst snd] in H.
+  apply qdiv_err in H. apply (Hnz k); [nlia | exact H].
+Qed.
+
+(* update_kkt on positive scalings can only fail with an index error *)
+Lemma update_kkt_err_kind d k0 e : wf_data d -> wf_scal d k0 -> pos_scal d k0 ->
+  update_kkt d k0 = Err e -> idx_err e.
+Proof.
+  intros Hd (Ls & Lzinv & Lslb & Lzli & Lsub & Lzui) (Pd & Pz & Pl & Pu) H.
+  destruct Hd as (_ & _ & _ & _ & _ & _ & Hlbs & Hubs & _).
+  unfold update_kkt in H. cbv zeta in H.
+  apply bind_err in H as [H | (w & _ & H)].
+  { exfalso. destruct (Nat.ltb 0 (d_m d)); [|discriminate].
+    apply vinv_err_zero in H as (x & Hx & Hx0).
+    revert Hx0. apply (pos_den_list (k_delta k0) (k_z_inv k0) (k_s k0)); try assumption; [nlia|].
+    intros l Hl. destruct (Pz l ltac:(nlia)). split; assumption. }
+  apply bind_err in H as [H | (dinv & _ & H)].
+  { exfalso. destruct (Nat.ltb 0 (d_p d)); [|discriminate]. unfold qinv in H. apply qdiv_err in H.
+    exact (Qclt_neq0 _ Pd H). }
+  apply bind_err in H as [H | (bd0 & _ & H)].
+  { apply (box_diag_err_kind _ _ _ _ _ _ (d_nlb d)) in H; [assumption | apply head_length; assumption |].
+    intros k Hk. destruct (Pl k Hk). apply Qclt_neq0. apply Qc_add_pos; [apply Qc_mul_pos|]; assumption. }
+  apply bind_err in H as [H | (bd & _ & H)]; [|discriminate].
+  apply (box_diag_err_kind _ _ _ _ _ _ (d_nub d)) in H; [assumption | apply head_length; assumption |].
+  intros k Hk. destruct (Pu k Hk). apply Qclt_neq0. apply Qc_add_pos; [apply Qc_mul_pos|]; assumption.
+Qed.
+
+(* the state handed to update_kkt by kkt_update_scalings, for an interior iterate *)
+Lemma kkt_update_scalings_k0 d kk rho delta s s_lb s_ub z z_lb z_ub :
+  kkt_shape d kk -> 0 < rho -> 0 < delta -> iter_pos d s s_lb s_ub z z_lb z_ub ->
+  exists k0, kkt_update_scalings d kk rho delta s s_lb s_ub z z_lb z_ub = update_kkt d k0 /\
+             wf_scal d k0 /\ pos_scal d k0 /\ 0 < k_rho k0 /\ ((0 < d_p d)%nat -> k_ATA k0 = compute_ATA d).
+Proof.
+  intros (K1 & K2 & K3 & K4 & K5) Hrho Hdelta (Ls & Lz & Ps & Lslb & Lzlb & Plb & Lsub & Lzub & Pub).
+  unfold kkt_update_scalings.
+  destruct (vinv_exists z) as [zi Hzi].
+  { intros x Hx. apply (In_nth _ _ 0) in Hx as (l & Hl & <-). apply Qclt_neq0. apply Ps. nlia. }
+  destruct (vinv_exists (head (d_nlb d) z_lb)) as [zlbi Hzlbi].
+  { intros x Hx. apply (In_nth _ _ 0) in Hx as (l & Hl & <-). rewrite head_length in Hl by assumption.
+    rewrite nth_head by assumption. apply Qclt_neq0. apply Plb. assumption. }
+  destruct (vinv_exists (head (d_nub d) z_ub)) as [zubi Hzubi].
+  { intros x Hx. apply (In_nth _ _ 0) in Hx as (l & Hl & <-). rewrite head_length in Hl by assumption.
+    rewrite nth_head by assumption. apply Qclt_neq0. apply Pub. assumption. }
+  rewrite Hzi, Hzlbi, Hzubi. cbn [bind].
+  apply vinv_ok in Hzi as [Lzi Nzi]. apply vinv_ok in Hzlbi as [Lzlbi Nzlbi]. apply vinv_ok in Hzubi as [Lzubi Nzubi].
+  rewrite head_length in Lzlbi, Nzlbi by assumption. rewrite head_length in Lzubi, Nzubi by assumption.
+  match goal with |- exists k0, update_kkt d ?kx = _ /\ _ => exists kx; set (k0 := kx) end.
+  split; [reflexivity|].
+  assert (E1 : k_rho k0 = rho) by (destruct kk; reflexivity).
+  assert (E2 : k_delta k0 = delta) by (destruct kk; reflexivity).
+  assert (E3 : k_s k0 = s) by (destruct kk; reflexivity).
+  assert (E4 : k_s_lb k0 = set_head (head (d_nlb d) s_lb) (k_s_lb kk)) by (destruct kk; reflexivity).
+  assert (E5 : k_s_ub k0 = set_head (head (d_nub d) s_ub) (k_s_ub kk)) by (destruct kk; reflexivity).
+  assert (E6 : k_z_inv k0 = zi) by (destruct kk; reflexivity).
+  assert (E7 : k_z_lb_inv k0 = set_head zlbi (k_z_lb_inv kk)) by (destruct kk; reflexivity).
+  assert (E8 : k_z_ub_inv k0 = set_head zubi (k_z_ub_inv kk)) by (destruct kk; reflexivity).
+  assert (E9 : k_ATA k0 = k_ATA kk) by (destruct kk; reflexivity).
+  split.
+  { unfold wf_scal. rewrite E3, E4, E5, E6, E7, E8.
+    rewrite !PDProofs.set_head_length by (rewrite ?head_length by assumption; nlia). repeat split; nlia. }
+  split.
+  { unfold pos_scal. rewrite E2, E3, E4, E5, E6, E7, E8. split; [assumption|]. split; [|split].
+    - intros l Hl. split; [apply Ps; assumption|].
+      destruct (Nzi l ltac:(nlia)) as [_ ->]. apply Qc_inv_pos. apply Ps. assumption.
+    - intros i Hi. rewrite !nth_set_head by (rewrite ?head_length by assumption; nlia).
+      rewrite nth_head by assumption. split; [apply Plb; assumption|].
+      destruct (Nzlbi i Hi) as [_ ->]. rewrite nth_head by assumption. apply Qc_inv_pos. apply Plb. assumption.
+    - intros i Hi. rewrite !nth_set_head by (rewrite ?head_length by assumption; nlia).
+      rewrite nth_head by assumption. split; [apply Pub; assumption|].
+      destruct (Nzubi i Hi) as [_ ->]. rewrite nth_head by assumption. apply Qc_inv_pos. apply Pub. assumption. }
+  split; [rewrite E1; assumption|]. intros Hp. rewrite E9. auto.
+Qed.
+
+Lemma kkt_update_scalings_err_kind d kk rho delta s s_lb s_ub z z_lb z_ub e :
+  wf_data d -> kkt_shape d kk -> 0 < rho -> 0 < delta -> iter_pos d s s_lb s_ub z z_lb z_ub ->
+  kkt_update_scalings d kk rho delta s s_lb s_ub z z_lb z_ub = Err e -> idx_err e.
+Proof.
+  intros Hd Hsh Hrho Hdelta Hit H.
+  destruct (kkt_update_scalings_k0 d kk rho delta s s_lb s_ub z z_lb z_ub Hsh Hrho Hdelta Hit) as (k0 & E & W & P & _).
+  rewrite E in H. eapply update_kkt_err_kind; eauto.
+Qed.
+
+(* after a refresh the state has positive scalings again (fields of k = fields of k0) *)
+Lemma kkt_update_scalings_pos d kk rho delta s s_lb s_ub z z_lb z_ub k :
+  wf_data d -> kkt_shape d kk -> 0 < rho -> 0 < delta -> iter_pos d s s_lb s_ub z z_lb z_ub ->
+  kkt_update_scalings d kk rho delta s s_lb s_ub z z_lb z_ub = Ok k ->
+  wf_scal d k /\ pos_scal d k.
+Proof.
+  intros Hd Hsh Hrho Hdelta Hit H.
+  destruct (kkt_update_scalings_k0 d kk rho delta s s_lb s_ub z z_lb z_ub Hsh Hrho Hdelta Hit) as (k0 & E & W & P & _ & HATA).
+  rewrite E in H. destruct (update_kkt_denotes_Kred d k0 k Hd W HATA H) as (Ek & _).
+  destruct (set_k_mat_proj k0 (k_mat k)) as (M1 & M2 & M3 & M4 & M5 & M6 & M7 & M8 & M9 & M10 & M11).
+  rewrite <- Ek in M3, M4, M5, M6, M7, M8, M9.
+  unfold wf_scal, pos_scal. rewrite M3, M4, M5, M6, M7, M8, M9. split; assumption.
+Qed.
+
+(* all pivots stored in the factorisation held by the state are non-zero *)
+Definition fact_pos (k : KKT) : Prop := forall f, k_fact k = Some f -> forall x, In x (f_D f) -> x <> 0.
+
+Lemma llt_compute_pivots_nz rows f : wf_lower rows -> llt_compute rows = Ok (Some f) ->
+  forall x, In x (f_D f) -> x <> 0.
+Proof.
+  intros Hwf Hc x Hx. destruct (llt_compute_factorisation rows f Hwf Hc) as (_ & LD & _ & Hpos & _).
+  apply (In_nth _ _ 0) in Hx as (i & Hi & <-). apply Qclt_neq0. apply (Hpos i). nlia.
+Qed.
+
+Theorem regularize_and_factorize_pd_pos (S : Settings) d k refine :
+  kkt_pd k -> exists f, regularize_and_factorize S d k refine false = Ok (k <| k_fact := Some f |>, true) /\
+                        forall x, In x (f_D f) -> x <> 0.
+Proof.
+  intros [Hwf Hpd]. unfold regularize_and_factorize. cbv zeta.
+  match goal with |- context [llt_compute ?rows] =>
+    match rows with map _ (combine (seq 0 (length (k_mat k))) (k_mat k)) =>
+      match rows with context [snd _ + ?r] => change rows with (reg_rows r (k_mat k)); set (rho_reg := r) end end end.
+  assert (Hr : 0 <= rho_reg).
+  { unfold rho_reg. destruct refine; [apply KKTProofs.qmax_ge_l | apply Qcle_refl]. }
+  destruct (pd_implies_llt_success (reg_rows rho_reg (k_mat k)) (reg_rows_wf _ _ Hwf) (reg_rows_pd _ _ Hwf Hr Hpd)) as [f Hf].
+  exists f. rewrite Hf. split; [reflexivity|]. exact (llt_compute_pivots_nz _ f (reg_rows_wf _ _ Hwf) Hf).
+Qed.
+
+Lemma do_factorize_pd_pos S d st : kkt_pd (st_kkt st) ->
+  exists f, do_factorize S d (fun _ => false) st
+            = Ok (st <| st_kkt := (st_kkt st) <| k_fact := Some f |> |> <| st_calls := Datatypes.S (st_calls st) |>, true) /\
+            forall x, In x (f_D f) -> x <> 0.
+Proof.
+  intros H. unfold do_factorize. destruct (regularize_and_factorize_pd_pos S d (st_kkt st) (st_refine st) H) as (f & Hf & Hp).
+  exists f. rewrite Hf. split; [reflexivity | exact Hp].
+Qed.
+
+Lemma llt_solve_total f b : (forall x, In x (f_D f) -> x <> 0) -> exists x, llt_solve f b = Ok x.
+Proof.
+  intros H. unfold llt_solve. destruct (vdiv_exists (fwd (f_L f) b []) (f_D f) H) as [y Hy]. rewrite Hy. eexists. reflexivity.
+Qed.
+
+Lemma solve_ldlt_total k b : (exists f, k_fact k = Some f) -> fact_pos k -> exists x, solve_ldlt k b = Ok x.
+Proof.
+  intros [f Hf] Hp. unfold solve_ldlt. rewrite Hf. apply llt_solve_total. exact (Hp f Hf).
+Qed.
+
+Lemma refine_loop_total S fuel : forall k rhs rn sol ec en,
+  (exists f, k_fact k = Some f) -> fact_pos k -> exists r, refine_loop S fuel k rhs rn sol ec en = Ok r.
+Proof.
+  induction fuel as [|fuel IH]; intros k rhs rn sol ec en Hf Hp; [eexists; reflexivity|].
+  cbn [refine_loop]. destruct (qleb en _); [eexists; reflexivity|].
+  destruct (solve_ldlt_total k ec Hf Hp) as [corr ->]. cbn [bind].
+  destruct (qeqb _ 0) eqn:Ez; [apply IH; assumption|].
+  apply LinAlg.qeqb_neq in Ez. rewrite (LinAlg.qdiv_nz _ _ Ez). cbn [bind].
+  destruct (qltb _ _); [destruct (qltb _ _); eexists; reflexivity | apply IH; assumption].
+Qed.
+
+(* kkt_solve (either refinement flag) on positive scalings with a factorisation in place can only fail with an index error *)
+Lemma kkt_solve_err_kind S d k refine rx ry rz rzlb rzub rs rslb rsub e :
+  wf_data d -> wf_scal d k -> pos_scal d k -> (exists f, k_fact k = Some f) -> fact_pos k ->
+  kkt_solve S d k refine rx ry rz rzlb rzub rs rslb rsub = Err e -> idx_err e.
+Proof.
+  intros Hd (Ls & Lzinv & Lslb & Lzli & Lsub & Lzui) (Pd & Pz & Pl & Pu) Hf Hp H.
+  unfold kkt_solve in H. cbv zeta in H.
+  apply bind_err in H as [H | (dinv & _ & H)].
+  { exfalso. unfold qinv in H. apply qdiv_err in H. exact (Qclt_neq0 _ Pd H). }
+  apply bind_err in H as [H | (w & _ & H)].
+  { exfalso. apply vinv_err_zero in H as (x & Hx & Hx0). revert Hx0.
+    apply (pos_den_list (k_delta k) (k_s k) (k_z_inv k)); try assumption; [nlia|].
+    intros l Hl. apply Pz. nlia. }
+  apply bind_err in H as [H | (wlb & _ & H)].
+  { exfalso. apply vinv_err_zero in H as (x & Hx & Hx0). revert Hx0.
+    apply (pos_den_list (k_delta k) (head (d_nlb d) (k_s_lb k)) (head (d_nlb d) (k_z_lb_inv k))); try assumption;
+      [rewrite !head_length by assumption; reflexivity|].
+    intros l Hl. rewrite head_length in Hl by assumption. rewrite !nth_head by assumption. apply Pl. assumption. }
+  apply bind_err in H as [H | (wub & _ & H)].
+  { exfalso. apply vinv_err_zero in H as (x & Hx & Hx0). revert Hx0.
+    apply (pos_den_list (k_delta k) (head (d_nub d) (k_s_ub k)) (head (d_nub d) (k_z_ub_inv k))); try assumption;
+      [rewrite !head_length by assumption; reflexivity|].
+    intros l Hl. rewrite head_length in Hl by assumption. rewrite !nth_head by assumption. apply Pu. assumption. }
+  apply bind_err in H as [H | (r2 & _ & H)]; [eapply scatter_with_err_kind; eauto|].
+  apply bind_err in H as [H | (rhs & _ & H)]; [eapply scatter_with_err_kind; eauto|].
+  apply bind_err in H as [H | (sol0 & _ & H)].
+  { exfalso. destruct (solve_ldlt_total k rhs Hf Hp) as [x Hx]. rewrite Hx in H. discriminate. }
+  apply bind_err in H as [H | (sol & _ & H)].
+  { exfalso. destruct (refine && _)%bool; [|discriminate]. cbv zeta in H.
+    match type of H with refine_loop S ?fu k ?a ?b ?c ?dd ?ee = _ =>
+      destruct (refine_loop_total S fu k a b c dd ee Hf Hp) as [r Hr]; rewrite Hr in H end. discriminate. }
+  apply bind_err in H as [H | (xlb & _ & H)]; [eapply gather_err_kind; eauto|].
+  apply bind_err in H as [H | (xub & _ & H)]; [eapply gather_err_kind; eauto|]. discriminate.
+Qed.
+
+Tactic Notation "bind_e" hyp(H) "as" ident(a) ident(Ha) := apply bind_err in H as [H | (a & Ha & H)].
+
+Lemma bind_ok_red {A B} (a : A) (f : A -> res B) : bind (Ok a) f = f a.
+Proof. reflexivity. Qed.
+
+Lemma mu_of_total d it : (0 < nineq d)%nat -> exists mu, mu_of d it = Ok mu.
+Proof.
+  intros HN. unfold mu_of. eexists. apply LinAlg.qdiv_nz. apply Qclt_neq0. apply qofnat_pos. exact HN.
+Qed.
+
+Lemma wf_pos_set_fact d k f : wf_scal d k -> pos_scal d k ->
+  wf_scal d (k <| k_fact := Some f |>) /\ pos_scal d (k <| k_fact := Some f |>).
+Proof.
+  intros W P. destruct (set_k_fact_proj k (Some f)) as (F1 & F2 & F3 & F4 & F5 & F6 & F7 & F8 & F9 & F10 & F11).
+  unfold wf_scal, pos_scal. rewrite F3, F4, F5, F6, F7, F8, F9. split; assumption.
+Qed.
+
+Lemma boundary_shift_lengths K it :
+  length (z (boundary_shift K it)) = length (z it) /\ length (z_lb (boundary_shift K it)) = length (z_lb it) /\
+  length (z_ub (boundary_shift K it)) = length (z_ub it).
+Proof.
+  unfold boundary_shift. destruct it. cbn.
+  destruct (lt_eps K z), (lt_eps K z_lb), (lt_eps K z_ub); rewrite ?map_length; repeat split; reflexivity.
+Qed.
+
+Section PassE.
+  Variable K : Consts.
+  Variable S : Settings.
+  Variable d : Data.
+  Variable pc : Precond.
+  Variable cp : F -> F.
+  Local Notation nofault := (fun _ : nat => false).
+
+  Hypothesis Hkeps : 0 < k_eps K.
+  Hypothesis HD : DataShape d.
+  Hypothesis Hwf : wf_data d.
+  Hypothesis Hpsd : P_psd d.
+
+  (* a pass from an interior state of a convex problem can only fail with an index / shape error *)
+  Theorem loop_pass_err_kind st e :
+    ConvexInv d st -> loop_pass K S d pc nofault cp st = Err e -> idx_err e.
+  Proof.
+    intros [[[HPit (Hrho & Hdelta & Hreg)] [HSh [Hmu _]]] Hsh] H.
+    cbv delta [loop_pass] in H. cbv beta in H. zeta1 H.
+    bind_e H as p0 Ha.
+    { unfold inf0 in H. destruct (i_iter (st_inf st) =? 0)%Z; [eapply update_nr_residuals_err_kind; eauto | discriminate]. }
+    destruct p0 as [res0 inf0a]. cbv beta iota in H.
+    assert (Hreg0 : i_rho inf0a = i_rho (st_inf st) /\ i_delta inf0a = i_delta (st_inf st) /\ i_mu inf0a = i_mu (st_inf st)).
+    { unfold inf0 in Ha. destruct (i_iter (st_inf st) =? 0)%Z.
+      - apply unr_keeps in Ha. destruct Ha as (A & B & _ & C). auto.
+      - injection Ha as _ <-. auto. }
+    repeat zeta1 H.
+    match type of H with (if ?c then _ else _) = _ => destruct c end; [discriminate|].
+    repeat zeta1 H.
+    match type of H with (if ?c then _ else _) = _ => destruct c end; [discriminate|].
+    match type of H with (if ?c then _ else _) = _ => destruct c end; [discriminate|].
+    repeat zeta1 H.
+    assert (Eit : it = st_it st) by (unfold it, st1; destruct st; reflexivity).
+    assert (Eit3 : it3 = boundary_shift K (st_it st)) by (unfold it3; rewrite Eit; reflexivity).
+    destruct (boundary_shift_keeps_positive K (st_it st) Hkeps HPit) as (HP3 & _ & _ & _ & S1 & S2 & S3).
+    rewrite <- Eit3 in HP3, S1, S2, S3.
+    assert (Lz3 : length (z it3) = length (z (st_it st)) /\ length (z_lb it3) = length (z_lb (st_it st)) /\
+                  length (z_ub it3) = length (z_ub (st_it st))).
+    { rewrite Eit3. apply boundary_shift_lengths. }
+    destruct HSh as (I1 & I2 & I3 & I4 & I5 & I6 & I7 & I8 & I9). destruct Lz3 as (Lz3a & Lz3b & Lz3c).
+    assert (SZ3 : SZShape d it3).
+    { unfold SZShape. rewrite S1, S2, S3, Lz3a, Lz3b, Lz3c. auto 10. }
+    (* boundary control: mu_of is only called when some multiplier block is non-empty *)
+    bind_e H as inf3 Hinf3.
+    { match type of H with (if ?c then _ else _) = _ => destruct c eqn:Esh end; [|discriminate].
+      bind_e H as mu0 Hmu0; [|discriminate]. exfalso.
+      assert (HN : (0 < nineq d)%nat).
+      { unfold nineq. unfold sh_z, sh_lb, sh_ub, lt_eps in Esh. rewrite Eit in Esh.
+        destruct (z (st_it st)) eqn:E1; [destruct (z_lb (st_it st)) eqn:E2; [destruct (z_ub (st_it st)) eqn:E3|]|];
+          cbn in I2, I5, I8; try lia; try discriminate. }
+      destruct (mu_of_total d it3 HN) as [mu Hmu']. rewrite Hmu' in H. discriminate. }
+    repeat zeta1 H.
+    assert (R1 : i_rho inf1 = i_rho (st_inf st) /\ i_delta inf1 = i_delta (st_inf st) /\ i_mu inf1 = i_mu (st_inf st)).
+    { unfold inf1. destruct Hreg0 as (<- & <- & <-). destruct inf0a. auto. }
+    assert (R3 : i_rho inf3 = i_rho inf1 /\ i_delta inf3 = i_delta inf1 /\ ((0 < nineq d)%nat -> 0 < i_mu inf3)).
+    { match type of Hinf3 with (if ?c then _ else _) = _ => destruct c end.
+      - apply bind_ok in Hinf3 as (mu & Hmu' & Hinf3). injection Hinf3 as <-. unfold inf2.
+        split; [destruct inf1; reflexivity|]. split; [destruct inf1; reflexivity|].
+        intros HN. replace (i_mu _) with mu by (destruct inf1; reflexivity).
+        apply (mu_of_pos6 d it3 mu Hmu' HP3 SZ3 HN).
+      - injection Hinf3 as <-. unfold inf2. split; [destruct inf1; reflexivity|]. split; [destruct inf1; reflexivity|].
+        intros HN. replace (i_mu _) with (i_mu inf1) by (destruct inf1; reflexivity).
+        destruct R1 as (_ & _ & ->). apply Hmu. exact HN. }
+    assert (R4 : i_rho inf4 = i_rho inf3 /\ i_delta inf4 = i_delta inf3 /\ i_mu inf4 = i_mu inf3).
+    { unfold inf4. match goal with |- context [if ?c then _ else _] => destruct c end; destruct inf3; auto. }
+    match type of H with bind (do_update_scalings d ?sx) _ = _ => set (stX := sx) in * end.
+    assert (X1 : st_kkt stX = st_kkt st) by (unfold stX, st1; destruct st; reflexivity).
+    assert (X2 : st_inf stX = inf4) by (unfold stX, st1; destruct st; reflexivity).
+    assert (X5 : st_it stX = it3) by (unfold stX, st1; destruct st; reflexivity).
+    assert (HitX : iter_pos d (s it3) (s_lb it3) (s_ub it3) (z it3) (z_lb it3) (z_ub it3)).
+    { destruct HP3 as (Q1 & Q2 & Q3 & Q4 & Q5 & Q6). destruct SZ3 as (T1 & T2 & T3 & T4 & T5 & T6).
+      unfold iter_pos. repeat split; try nlia; apply vpos_nth; try assumption; nlia. }
+    assert (HrhoX : 0 < i_rho inf4).
+    { destruct R4 as (-> & _). destruct R3 as (-> & _). destruct R1 as (-> & _). assumption. }
+    assert (HdeltaX : 0 < i_delta inf4).
+    { destruct R4 as (_ & -> & _). destruct R3 as (_ & -> & _). destruct R1 as (_ & -> & _). assumption. }
+    bind_e H as st4 Hst4.
+    { unfold do_update_scalings in H. bind_e H as k4 Hk4; [|discriminate]. rewrite X1, X2, X5 in H.
+      exact (kkt_update_scalings_err_kind _ _ _ _ _ _ _ _ _ _ e Hwf Hsh HrhoX HdeltaX HitX H). }
+    assert (F4 : kkt_pd (st_kkt st4) /\ wf_scal d (st_kkt st4) /\ pos_scal d (st_kkt st4) /\
+                 st_inf st4 = inf4 /\ st_it st4 = it3).
+    { unfold do_update_scalings in Hst4. apply bind_ok in Hst4 as (k4 & Hk4 & Hst4). injection Hst4 as <-.
+      rewrite X1, X2, X5 in Hk4.
+      destruct (kkt_update_scalings_pd _ _ _ _ _ _ _ _ _ _ _ Hwf Hpsd Hsh HrhoX HdeltaX HitX Hk4) as [G1 _].
+      destruct (kkt_update_scalings_pos _ _ _ _ _ _ _ _ _ _ _ Hwf Hsh HrhoX HdeltaX HitX Hk4) as [G2 G3].
+      replace (st_kkt (stX <| st_kkt := k4 |>)) with k4 by (destruct stX; reflexivity).
+      replace (st_inf (stX <| st_kkt := k4 |>)) with (st_inf stX) by (destruct stX; reflexivity).
+      replace (st_it (stX <| st_kkt := k4 |>)) with (st_it stX) by (destruct stX; reflexivity). auto. }
+    destruct F4 as (G1 & G2 & G3 & G4 & G5).
+    destruct (do_factorize_pd_pos S d st4 G1) as (f & Hf & Hfp).
+    rewrite Hf in H. rewrite bind_ok_red in H. cbv beta iota in H. change (negb true) with false in H. cbv iota in H.
+    match type of Hf with _ = Ok (?sx, true) => set (st5 := sx) in * end.
+    assert (Y1 : st_kkt st5 = (st_kkt st4) <| k_fact := Some f |>) by (unfold st5; destruct st4; reflexivity).
+    assert (Y2 : st_inf st5 = inf4) by (unfold st5; rewrite <- G4; destruct st4; reflexivity).
+    destruct (wf_pos_set_fact d (st_kkt st4) f G2 G3) as [W5 P5]. rewrite <- Y1 in W5, P5.
+    assert (Hf5 : exists f0, k_fact (st_kkt st5) = Some f0).
+    { exists f. rewrite Y1. destruct (st_kkt st4). reflexivity. }
+    assert (Hp5 : fact_pos (st_kkt st5)).
+    { intros f0 Hf0. rewrite Y1 in Hf0. replace (k_fact _) with (Some f) in Hf0 by (destruct (st_kkt st4); reflexivity).
+      injection Hf0 as <-. exact Hfp. }
+    clearbody st5 stX. clear Hf Hst4.
+    repeat zeta1 H.
+    assert (Ekk : kk = st_kkt st5) by reflexivity.
+    assert (Mu6 : (0 < nineq d)%nat -> 0 < i_mu inf6).
+    { intros HN. unfold inf6. rewrite Y2. replace (i_mu _) with (i_mu inf4) by (destruct inf4; reflexivity).
+      destruct R4 as (_ & _ & ->). apply R3. exact HN. }
+    match type of H with (if ?c then _ else _) = _ => destruct c eqn:EN end.
+    - apply Nat.ltb_lt in EN.
+      repeat zeta1 H.
+      bind_e H as p Hp; [rewrite Ekk in H; eapply kkt_solve_err_kind; eauto|].
+      bind_e H as sl1 Hsl1. { exfalso. destruct (step_lengths_spec it3 p HP3) as (u & v & Hs & _). rewrite Hs in H. discriminate. }
+      destruct sl1 as [a_s0 a_z0]. cbv beta iota in H. repeat zeta1 H.
+      bind_e H as sig1 Hsig1.
+      { exfalso. apply qdiv_err in H. pose proof (Mu6 EN) as M1. pose proof (qofnat_pos _ EN) as M2.
+        destruct (Qcmult_integral _ _ H) as [Z|Z];
+          [rewrite Z in M1; exact (Qclt_not_eq _ _ M1 eq_refl) | rewrite Z in M2; exact (Qclt_not_eq _ _ M2 eq_refl)]. }
+      repeat zeta1 H.
+      bind_e H as c Hc; [rewrite Ekk in H; eapply kkt_solve_err_kind; eauto|].
+      bind_e H as sl2 Hsl2. { exfalso. destruct (step_lengths_spec it3 c HP3) as (u & v & Hs & _). rewrite Hs in H. discriminate. }
+      destruct sl2 as [b_s0 b_z0]. cbv beta iota in H. repeat zeta1 H.
+      bind_e H as mu Hmu4. { exfalso. destruct (mu_of_total d it4 EN) as [mu Hmu']. rewrite Hmu' in H. discriminate. }
+      bind_e H as rate0 Hrate0.
+      { exfalso. apply qdiv_err in H. unfold mu_prev in H. pose proof (Mu6 EN) as M. rewrite H in M.
+        exact (Qclt_not_eq _ _ M eq_refl). }
+      repeat zeta1 H.
+      bind_e H as ur Hur; [eapply update_nr_residuals_err_kind; eauto|].
+      destruct ur. cbv beta iota in H. repeat zeta1 H. discriminate.
+    - repeat zeta1 H.
+      bind_e H as c Hc; [rewrite Ekk in H; eapply kkt_solve_err_kind; eauto|].
+      repeat zeta1 H.
+      bind_e H as ur Hur; [eapply update_nr_residuals_err_kind; eauto|].
+      destruct ur. cbv beta iota in H. repeat zeta1 H. discriminate.
+  Qed.
+End PassE.
+
+Section LoopE.
+  Variable K : Consts.
+  Variable S : Settings.
+  Variable d : Data.
+  Variable pc : Precond.
+  Variable cp : F -> F.
+  Local Notation nofault := (fun _ : nat => false).
+
+  Hypothesis Hcp : cp_pos cp.
+  Hypothesis Htau0 : 0 < tau S.
+  Hypothesis Htau1 : tau S < 1.
+  Hypothesis Hfine : 0 < reg_finetune_lower_limit S.
+  Hypothesis Hepsabs : 0 < eps_abs S.
+  Hypothesis Hkeps : 0 < k_eps K.
+  Hypothesis Hretry : 0 < k_retry_mul K.
+  Hypothesis Hreglim : 0 < k_reglim_mul K.
+  Hypothesis HD : DataShape d.
+  Hypothesis Hwf : wf_data d.
+  Hypothesis Hpsd : P_psd d.
+
+  Theorem main_loop_no_divzero fuel : forall st e,
+    ConvexInv d st -> main_loop K S d pc nofault cp fuel st = Err e -> e <> DivZero.
+  Proof.
+    induction fuel as [|f IH]; intros st e HI E; cbn [main_loop] in E; [injection E as <-; discriminate|].
+    destruct (i_iter (st_inf st) <? max_iter S)%Z; [|discriminate].
+    destruct (loop_pass K S d pc nofault cp st) as [o|e0] eqn:E0; cbn [bind] in E.
+    - destruct (loop_pass_convex_inv K S d pc cp Hcp Htau0 Htau1 Hfine Hepsabs Hkeps Hretry Hreglim HD Hwf Hpsd st o HI E0) as [_ B].
+      destruct o as [st1|st1]; [exact (IH st1 e B E) | discriminate].
+    - injection E as <-. apply idx_err_not_dz. eapply loop_pass_err_kind; eauto.
+  Qed.
+End LoopE.
+
+Lemma init_factor_convex_explicit_pos K S d fuel st : kkt_pd (st_kkt st) ->
+  exists f, init_factor K S d (fun _ => false) (Datatypes.S fuel) st
+            = Ok (st <| st_kkt := (st_kkt st) <| k_fact := Some f |> |> <| st_calls := Datatypes.S (st_calls st) |>, true) /\
+            forall x, In x (f_D f) -> x <> 0.
+Proof.
+  intros H. destruct (do_factorize_pd_pos S d st H) as (f & Hf & Hp). exists f. cbn [init_factor]. rewrite Hf.
+  split; [reflexivity | exact Hp].
+Qed.
+
+Lemma kkt_init_pos d rho delta junk k : wf_data d -> 0 < delta ->
+  kkt_init d rho delta junk = Ok k -> wf_scal d k /\ pos_scal d k.
+Proof.
+  intros Hd Hdelta H. unfold kkt_init in H. cbv zeta in H.
+  match type of H with update_kkt d ?kx = _ => set (k0 := kx) in * end.
+  assert (Hwf0 : wf_scal d k0).
+  { unfold wf_scal, k0. cbn. rewrite !app_length, !LinAlg.vconst_length. repeat split; lia. }
+  assert (Hpos0 : pos_scal d k0).
+  { unfold pos_scal, k0. cbn. split; [assumption|]. split; [|split].
+    - intros l Hl. rewrite (nth_indep (vconst (d_m d) 1) 0 1) by (rewrite LinAlg.vconst_length; assumption).
+      rewrite nth_vconst. split; reflexivity.
+    - intros i Hi. rewrite app_nth1 by (rewrite LinAlg.vconst_length; assumption).
+      rewrite (nth_indep (vconst (d_nlb d) 1) 0 1) by (rewrite LinAlg.vconst_length; assumption).
+      rewrite nth_vconst. split; reflexivity.
+    - intros i Hi. rewrite app_nth1 by (rewrite LinAlg.vconst_length; assumption).
+      rewrite (nth_indep (vconst (d_nub d) 1) 0 1) by (rewrite LinAlg.vconst_length; assumption).
+      rewrite nth_vconst. split; reflexivity. }
+  assert (HATA0 : (0 < d_p d)%nat -> k_ATA k0 = compute_ATA d).
+  { intros Hp. unfold k0. cbn [k_ATA]. destruct (Nat.ltb 0 (d_p d)) eqn:E; [reflexivity | apply Nat.ltb_ge in E; lia]. }
+  destruct (update_kkt_denotes_Kred d k0 k Hd Hwf0 HATA0 H) as (Ek & _).
+  destruct (set_k_mat_proj k0 (k_mat k)) as (M1 & M2 & M3 & M4 & M5 & M6 & M7 & M8 & M9 & M10 & M11).
+  rewrite <- Ek in M3, M4, M5, M6, M7, M8, M9.
+  unfold wf_scal, pos_scal. rewrite M3, M4, M5, M6, M7, M8, M9. split; assumption.
+Qed.
+
+(* solver object for the no-DivZero theorem: as solver_convex, and a never-refreshed KKT object has positive scalings
+   (true after setup: kkt_init puts 1 in every active slot) *)
+Definition solver_convex_pos (sv : Solver) : Prop :=
+  solver_convex sv /\
+  (sv_kkt_init_state sv = true -> wf_scal (sv_data sv) (sv_kkt sv) /\ pos_scal (sv_data sv) (sv_kkt sv)).
+
+Lemma setup_state_convex_pos junk (sv : Solver) :
+  wf_data (sv_data sv) -> DataShape (sv_data sv) -> P_psd (sv_data sv) ->
+  0 < rho_init (sv_set sv) -> 0 < delta_init (sv_set sv) ->
+  kkt_init (sv_data sv) (rho_init (sv_set sv)) (delta_init (sv_set sv)) junk = Ok (sv_kkt sv) ->
+  solver_convex_pos sv.
+Proof.
+  intros Hd HD HP Hrho Hdelta Hk. split; [apply (setup_state_convex junk); assumption|].
+  intros _. exact (kkt_init_pos _ _ _ _ _ Hd Hdelta Hk).
+Qed.
+
+Lemma initial_point_err K S d cp st e : initial_point K S d cp st = Err e ->
+  init_solve S d st = Err e \/ exists stp, init_solve S d st = Ok stp.
+Proof.
+  intros E. destruct (init_solve S d st) as [stp|e0] eqn:Es; [right; eauto|]. left.
+  unfold init_solve in Es. revert E. cbv delta [initial_point]. cbv beta. intros E. cbv zeta in E.
+  rewrite Es in E. cbn [bind] in E. injection E as <-. reflexivity.
+Qed.
+
+(* solve() never divides by zero on a convex problem (exact arithmetic, never-failing fault oracle):
+   every Err result is an index/shape error or fuel exhaustion *)
+Theorem solve_no_divzero_convex K junk cp_bits sv e :
+  consts_ok K -> settings_ok (sv_set sv) -> solver_convex_pos sv ->
+  solve K junk cp_bits (fun _ => false) sv = Err e -> e <> DivZero.
+Proof.
+  intros (Hksh & Hhalf & Hsinit & Hsnorm & Hkeps & Hretry & Hreglim)
+         (Hrho & Hdelta & Hreg & Hfine & Hepsabs & Htau0 & Htau1)
+         [(Hd & HD & HP & Hsh & Hinit) Hinitpos] H.
+  cbv delta [solve] in H. cbv beta in H. repeat zeta1 H.
+  assert (I0 : InfPos inf0 /\ i_iter inf0 = 0%Z).
+  { unfold inf0, S. destruct (sv_info sv). cbn. unfold InfPos. cbn. auto. }
+  assert (P0 : ItPos it0 /\ SZShape d it0).
+  { unfold it0, entry_iterate, ItPos, SZShape. cbn. rewrite !LinAlg.vconst_length.
+    repeat split; try reflexivity; apply vpos_vconst1. }
+  assert (Est0 : st_kkt (st0 <| st_it := it1 |>) = sv_kkt sv /\ st_inf (st0 <| st_it := it1 |>) = inf0 /\
+                 st_it (st0 <| st_it := it1 |>) = it0) by (unfold st0, it1; cbn; auto).
+  destruct Est0 as (Z1 & Z2 & Z3). destruct I0 as [(J1 & J2 & J3) J4].
+  bind_e H as st1 Hst1.
+  { destruct (sv_kkt_init_state sv); [discriminate|].
+    unfold do_update_scalings in H. bind_e H as k1 Hk1; [|discriminate]. rewrite Z1, Z2, Z3 in H.
+    apply idx_err_not_dz.
+    exact (kkt_update_scalings_err_kind _ _ _ _ _ _ _ _ _ _ e Hd Hsh J1 J2 (entry_iter_pos d (sv_out sv)) H). }
+  assert (A : kkt_pd (st_kkt st1) /\ kkt_shape d (st_kkt st1) /\ KShape d (st_kkt st1) /\ KSign d (st_kkt st1) /\
+              wf_scal d (st_kkt st1) /\ pos_scal d (st_kkt st1) /\ st_it st1 = it0 /\ st_inf st1 = inf0).
+  { destruct (sv_kkt_init_state sv) eqn:Eis.
+    - injection Hst1 as <-. destruct (Hinit eq_refl) as (B1 & B2 & B3). destruct (Hinitpos eq_refl) as (B4 & B5).
+      rewrite Z1, Z2, Z3. auto 10.
+    - pose proof Hst1 as Hst1'.
+      apply do_update_scalings_ok in Hst1'; [|rewrite Z3; apply P0..].
+      destruct Hst1' as (B1 & B2 & B3 & B4 & B5).
+      unfold do_update_scalings in Hst1. apply bind_ok in Hst1 as (k1 & Hk1 & Hst1). injection Hst1 as <-.
+      rewrite Z1, Z2, Z3 in Hk1.
+      destruct (kkt_update_scalings_pd _ _ _ _ _ _ _ _ _ _ _ Hd HP Hsh J1 J2 (entry_iter_pos d (sv_out sv)) Hk1) as [C1 C2].
+      destruct (kkt_update_scalings_pos _ _ _ _ _ _ _ _ _ _ _ Hd Hsh J1 J2 (entry_iter_pos d (sv_out sv)) Hk1) as [C3 C4].
+      rewrite B3, B4 in *. unfold st0, it1 in *. cbn in *. auto 10. }
+  destruct A as (A1 & A2 & A3 & A4 & A5 & A6 & A7 & A8).
+  bind_e H as p2 Hst2.
+  { destruct (init_fuel S) as [|fuel0]; [cbn in H; injection H as <-; discriminate|].
+    destruct (init_factor_convex_explicit_pos K S d fuel0 st1 A1) as (f & Hf & _). rewrite Hf in H. discriminate. }
+  destruct p2 as [st2 ok]. cbv beta iota in H.
+  destruct (init_fuel S) as [|fuel0] eqn:Efuel; [discriminate|].
+  destruct (init_factor_convex_explicit_pos K S d fuel0 st1 A1) as (f & Hf & Hfp).
+  pose proof Hst2 as Hst2'. rewrite Hf in Hst2'. injection Hst2' as E2 E3. subst ok.
+  zeta1 H. change (negb true) with false in H. cbv iota in H.
+  destruct (init_factor_ok K S d (fun _ => false) Hretry Hreglim Hepsabs _ st1 st2 true Hst2) as (B1 & B2 & B3 & B4 & B5);
+    try assumption; try (rewrite A7; apply P0); try (rewrite A8; repeat split; assumption).
+  match type of H with bind (initial_point _ _ _ _ ?sx) _ = _ => set (stI := sx) in * end.
+  assert (C : st_kkt stI = (st_kkt st1) <| k_fact := Some f |> /\ st_refine stI = st_refine st1 /\
+              InfPos (st_inf stI) /\ i_iter (st_inf stI) = 0%Z).
+  { unfold stI. rewrite <- E2. rewrite A8 in B5. rewrite J4 in B5. rewrite <- E2 in B5, B3.
+    destruct st1 as [? inf1 ? ? ? ?]. cbn in *. destruct inf1. cbn in *. unfold InfPos. cbn. repeat split; try assumption; apply B3. }
+  destruct C as (C1 & C2 & C3 & C4).
+  destruct (wf_pos_set_fact d (st_kkt st1) f A5 A6) as [W5 P5]. rewrite <- C1 in W5, P5.
+  assert (Hf5 : exists f0, k_fact (st_kkt stI) = Some f0).
+  { exists f. rewrite C1. destruct (st_kkt st1). reflexivity. }
+  assert (Hp5 : fact_pos (st_kkt stI)).
+  { intros f0 Hf0. rewrite C1 in Hf0. replace (k_fact _) with (Some f) in Hf0 by (destruct (st_kkt st1); reflexivity).
+    injection Hf0 as <-. exact Hfp. }
+  assert (KS : KShape d (st_kkt stI) /\ KSign d (st_kkt stI)).
+  { replace (st_kkt stI) with (st_kkt st2); [split; assumption|]. rewrite C1, <- E2. destruct st1. reflexivity. }
+  destruct KS as [KS1 KS2].
+  bind_e H as st3 Hst3.
+  { pose proof H as Hip. apply initial_point_err in H as [H | [stp Hs]].
+    - apply idx_err_not_dz. unfold init_solve in H. eapply kkt_solve_err_kind; eauto.
+    - exfalso.
+      destruct (initial_point_interior K S d (round_cp cp_bits) (round_cp_sign cp_bits) Hksh Hhalf Hsinit Hsnorm HD
+                  stI stp KS1 KS2 C3 C4 Hs) as (st' & E' & _).
+      rewrite E' in Hip. discriminate. }
+  assert (HI3 : Interior d st3).
+  { apply (initial_point_ok_interior K S d (round_cp cp_bits) (round_cp_sign cp_bits) Hksh Hhalf Hsinit Hsnorm HD stI st3);
+      assumption. }
+  destruct (initial_point_keeps K S d (round_cp cp_bits) stI st3 Hst3) as [E1' E2'].
+  assert (Hsh3 : kkt_shape d (st_kkt st3)).
+  { rewrite E1', C1.
+    destruct (set_k_fact_proj (st_kkt st1) (Some f)) as (_ & _ & _ & _ & F5 & F6 & _ & F8 & F9 & F10 & _).
+    unfold kkt_shape. rewrite F5, F6, F8, F9, F10. exact A2. }
+  bind_e H as st4 Hst4.
+  { exact (main_loop_no_divzero K S d pc (round_cp cp_bits) (cp_sign_pos _ (round_cp_sign cp_bits))
+             Htau0 Htau1 Hfine Hepsabs Hkeps Hretry Hreglim HD Hd HP _ st3 e (conj HI3 Hsh3) H). }
+  unfold fin in H. bind_e H as out Hout; [|discriminate].
+  apply idx_err_not_dz. eapply unscale_and_restore_err_kind; eauto.
+Qed.
+
 (* ================================================================ Part D : a concrete run (instance of InteriorExamples.v:
    minimise x^2 + x  s.t.  x <= 1, -3 <= x; real constants of solver.hpp, 16-bit checkpoint rounding) *)
 Lemma ex_consts_settings_ok : consts_ok consts /\ settings_ok InteriorExamples.ex_settings.
@@ -405,4 +1013,15 @@ Proof.
   destruct (solve consts 0 16 (fun _ => false) sv) as [[sv' status]|] eqn:Es; [|discriminate].
   subst status. exists sv'. split; [reflexivity|].
   apply (solve_convex_never_numerics consts 0 16 sv sv' SOLVED HK); [rewrite E1; exact HS | exact Hconv | exact Es].
+Qed.
+
+Example ex_solver_convex_pos :
+  match InteriorExamples.ex_sv_res with Ok sv => solver_convex_pos sv | Err _ => False end.
+Proof.
+  pose proof ex_data_ok as Hdat.
+  destruct InteriorExamples.ex_sv_res as [sv|] eqn:E; [|contradiction].
+  pose proof E as Eset. unfold InteriorExamples.ex_sv_res in Eset.
+  destruct (setup_fields _ _ _ _ _ _ _ _ _ _ Eset) as (E1 & E2 & E3 & E4).
+  destruct ex_consts_settings_ok as [HK HS]. destruct Hdat as (Hd & HD & HP).
+  apply (setup_state_convex_pos 0); try assumption; try (rewrite E1; apply HS). rewrite E1; exact E4.
 Qed.
